@@ -284,6 +284,8 @@ pub fn pm1_impl(n: &Uint, b1: u64, b2: f64, verbosity: Verbosity) -> Option<(Vec
             // process exponent block
             if stop || 1 << expblock.leading_zeros() <= pow {
                 if !largeblocks {
+                    #[cfg(yamaquasi_verif)]
+                    verif_hooks::vh_rec_small(expblock);
                     g = exp_modn(&zn, &g, expblock);
                     gpows.push(zn.sub(&g, &zn.one()));
                     expblock = 1;
@@ -294,6 +296,8 @@ pub fn pm1_impl(n: &Uint, b1: u64, b2: f64, verbosity: Verbosity) -> Option<(Vec
             }
             // Keep room for the next 64-bit block: the product above must fit in 1024 bits.
             if stop || expblock_lg.bits() > 1024 - 64 {
+                #[cfg(yamaquasi_verif)]
+                verif_hooks::vh_rec_large(&expblock_lg);
                 g = exp_modn_large(&zn, &g, &expblock_lg);
                 gpows.push(zn.sub(&g, &zn.one()));
                 expblock_lg = U1024::ONE;
@@ -920,5 +924,36 @@ pub mod verif_hooks {
     }
     pub fn vh_stage2_table() -> &'static [(f64, u64, u64)] {
         STAGE2_PARAMS
+    }
+
+    /// PM1Base private fields: (compact blocks of small prime powers, large primes).
+    pub fn vh_pm1base_parts(b: &PM1Base) -> (&[u32], &[u32]) {
+        (&b.factors, &b.larges)
+    }
+
+    // Recorder of the stage-1 exponent blocks of `pm1_impl` (C17): every exponent passed to
+    // exp_modn (small = true) / exp_modn_large (small = false), in order, while recording is on.
+    thread_local! {
+        static VH_REC: std::cell::RefCell<Option<Vec<(bool, U1024)>>> = std::cell::RefCell::new(None);
+    }
+    pub fn vh_rec_start() {
+        VH_REC.with(|r| *r.borrow_mut() = Some(vec![]));
+    }
+    pub fn vh_rec_take() -> Vec<(bool, U1024)> {
+        VH_REC.with(|r| r.borrow_mut().take().unwrap_or_default())
+    }
+    pub fn vh_rec_small(e: u64) {
+        VH_REC.with(|r| {
+            if let Some(v) = r.borrow_mut().as_mut() {
+                v.push((true, U1024::from_digit(e)))
+            }
+        });
+    }
+    pub fn vh_rec_large(e: &U1024) {
+        VH_REC.with(|r| {
+            if let Some(v) = r.borrow_mut().as_mut() {
+                v.push((false, *e))
+            }
+        });
     }
 }
